@@ -1,4 +1,5 @@
 //! Runtime-monitoring harness for mdsteele/rust-msi (see /verif/DESIGN.md).
+pub mod absgen;
 pub mod cpora;
 pub mod engine;
 pub mod fmt_codec;
